@@ -50,6 +50,9 @@ class BusWorld(World):
         self.devices = devices
         self.client_key = client_key
         self.sent: list[tuple[float, Telegram]] = []
+        self.stall_at: int | None = None
+        self.stall_for = 4.0
+        self.stall_end = 0.0
         self.stray: list[tuple[str, Any]] = []  # (trigger apci class name, telegram factory) injected when the client broadcasts
         world = self
 
@@ -64,6 +67,16 @@ class BusWorld(World):
                     world.xknx.cemi_handler._l_data_confirmation_event.set()  # noqa: SLF001
                     world.on_bus_fast(tg)
 
+                # a stalled link (tunnel / line coupler busy): from the stall_at-th frame on, frames wait until the stall is over -
+                # neither confirmed nor on the bus before
+                idx = len(world.sent) - 1
+                if world.stall_at is not None and idx == world.stall_at:
+                    world.stall_end = world.loop.time() + world.stall_for
+                wait = max(0.0, world.stall_end - world.loop.time())
+                if wait:
+                    world.loop.call_later(wait, con_and_fast_answers)
+                    world.loop.call_later(wait + 0.01, world.on_bus, tg)
+                    return
                 world.loop.call_soon(con_and_fast_answers)
                 world.loop.call_later(0.01, world.on_bus, tg)
 
